@@ -11,6 +11,12 @@ CHECKS = {
    text="Generated-input search: lexeme sequences of the documented lexical grammar with every separator class; expected kinds, decoded values, exactly one EOF and comment texts are known by construction and cross-checked by an independent reference lexer; the same lexemes under two layouts/cases must read the same. All ordered operator/punctuation pairs are enumerated exhaustively. Absence of violations outside the explored cases is not established.",
    note="Trusted: the reference lexer and the generator's decoding tables (written from the docs); the observation function that splits compound keyword tokens; words outside the core keyword list may be typed either way.",
    design="4/C04"),
+ "C05": dict(
+   technique="property-based testing: generated texts with positions known by construction; positioned lexical-error injection; invariants over the token stream (order, containment)",
+   level="exploration",
+   text="Generated-input search: every token, comment and end-of-input marker of generated texts is compared with the line:column the generator placed it at (exact where the line prefix is ASCII and tab-free, line number elsewhere), plus 1-based/ordering/containment invariants; lexical errors of eight families are planted at known offsets and the structured error's location is compared; parser error locations over single-token corruptions of generated statements. Not a proof: only generated layouts are covered.",
+   note="Trusted: the generator's own offset bookkeeping; tab and non-ASCII columns are deliberately not asserted exactly (property text); a line comment's end may be its last character or the start of the next line.",
+   design="4/C05"),
 }
 
 def main():
